@@ -730,6 +730,28 @@ struct Driver
             return 0;
     }
 
+    template <std::size_t... I>
+    void read_fixed_sizes(int v, std::index_sequence<I...>)
+    {
+        const Vec& cvec = V(v);
+        (
+            [&]
+            {
+                if constexpr (PL::template Info<I>::kind == FIXED)
+                    vfixed[v][PL::template fixed_index<I>()] =
+                        cvec.template get_fixed_size<PL::template fixed_index<I>()>();
+            }(),
+            ...);
+        (void)cvec;
+    }
+    template <std::size_t... I>
+    std::string fixed_of_json(int v, std::index_sequence<I...>)
+    {
+        std::string s = "[";
+        ((s += (I ? "," : ""), s += std::to_string(vstate[v] ? fixed_count_of<I>(v) : 0)), ...);
+        return s + "]";
+    }
+
     template <std::size_t I>
     auto make_arg(int v, int tag, int salt, const std::vector<int>& vs)
     {
@@ -862,6 +884,13 @@ struct Driver
             else if (op.n == "Clear")
             {
                 V(v).clear();
+                if (vstate[v] == 2)
+                {
+                    // a cleared moved-from vector is an ordinary empty vector again; what it reports is logged
+                    vstate[v] = 1;
+                    parcap = static_cast<long>(V(v).capacity());
+                    read_fixed_sizes(v, std::make_index_sequence<N>{});
+                }
             }
 #endif
             else if (op.n == "Reserve")
@@ -1129,7 +1158,8 @@ struct Driver
         std::ostringstream o;
         o << "{\"e\":\"op\",\"h\":" << h << ",\"s\":" << step << ",\"n\":\"" << op.n << "\",\"v\":" << v << ",\"a\":[";
         for (std::size_t i = 0; i < op.a.size(); ++i) o << (i ? "," : "") << op.a[i];
-        o << "],\"par\":{\"salt\":" << salt << ",\"cap\":" << parcap << ",\"fresh\":" << fresh << ",\"fault\":" << fault << ",\"thrown\":" << (thrown ? 1 : 0) << "},\"thrown\":" << (thrown ? 1 : 0)
+        o << "],\"par\":{\"salt\":" << salt << ",\"cap\":" << parcap << ",\"fresh\":" << fresh << ",\"fault\":" << fault << ",\"thrown\":" << (thrown ? 1 : 0)
+          << ",\"fx\":" << ((v >= 1 && v <= NV && op.n == "Clear") ? fixed_of_json(v, std::make_index_sequence<N>{}) : std::string("[]")) << "},\"thrown\":" << (thrown ? 1 : 0)
           << ",\"ret\":" << ret << ",\"canary\":" << (ledger().canary_dead ? 1 : 0) << ",\"sub\":[" << sub
           << "],\"itab\":" << itab << ",\"cmp\":" << cmp << ",\"obs\":" << all_obs() << ",\"eobs\":" << all_el_obs() << "}";
         ledger().take_sub();  // projection must not produce events; drop defensively
